@@ -24,6 +24,14 @@ SPECS = {
         explanation="every generated program+query is run on the implementation, on the machine model M and on the reference semantics S "
                     "(vm_compute); C<>S is a failing input of the property, C<>M a broken correspondence",
     ),
+    "C02": dict(
+        level="proof", props_deps=["Proofs/Unify.v"], model_deps=["Model/TermCheck.v"],
+        trusted=COMMON_TRUSTED + ["hand-written Model/Unify.v (Resolve/unify/contains over abstract terms and a finite-map env), tied to engine/env.go by the correspondence run"],
+        assumptions=["pairs subject to occurs check are only used with unify_with_occurs_check/2 (decided by the harness's own unifier)",
+                     "the red-black tree of engine/env.go is abstracted to a finite map"],
+        search=False,
+        explanation="pairs of terms rendered through every list/string construction path; =/2 both ways, unify_with_occurs_check/2, ==/2 after success, \\+ =/2, head unification; the model's unifier evaluated on the abstract pair; the property's algebraic laws (symmetry, identity after success, no bindings after failure, representation independence, agreement of the two unifiers) evaluated on the implementation for every pair",
+    ),
     "C03": dict(
         level="proof", props_deps=["Proofs/Promise.v", "Proofs/Trampoline.v"], model_deps=ENGINE_MODEL_DEPS, trusted=ENGINE_TRUSTED,
         assumptions=["cut placements outside the property's quantifier (a cut nested in a non-top-level disjunction, in a then/else branch or under a left-nested conjunction) are not generated"],
